@@ -251,14 +251,14 @@ Definition dev_typed : Prop :=
 (* an event the real system can deliver in state [s]: the task runs only when it is enabled, the run permit
    is released only by __call__ / resume(), resume() is called on a paused engine, only __call__ and resume()
    return to the caller; requests: pause (hard or deferred to the next checkpoint) and suspension (no pre/post plans),
-   released at any time; no new request while a suspension keeps rewinding switched off (that window, in which a
-   pause or a second suspension lets the held plan go, is the subject of C11) *)
+   released at any time -- also while an earlier suspension keeps rewinding switched off (there a pause or a second
+   suspension lets the held plan go on early, which is the subject of C11; the recorded data does not change) *)
 Definition ev_ok (s : st P D) (e : event) : bool :=
   match e with
   | EvTask => match pc P D s with PcPermit0 => permit P D s | _ => true end
   | EvPermit => negb (rstate_eqb (state P D s) Paused && interrupted P D s)
   | EvMain AResume => rstate_eqb (state P D s) Paused
-  | EvReqPause _ | EvReqSuspend _ false false => rewindable P D s
+  | EvReqPause _ | EvReqSuspend _ false false
   | EvMainDone (ACall _) | EvMainDone AResume | EvRelease _ | EvStatus _ true | EvCacheDone => true
   | _ => false
   end.
